@@ -59,7 +59,7 @@ func maxFile() int {
 func genInput(t *rapid.T, k stdh.Kind, label string) (data []byte, desc string, quirks [][2]uint64, pristine bool) {
 	pkg := k.Pkg()
 	if k.Iface >= stdh.H32 {
-		return stdgen.Payload(t, label+"pl", 20000), "hash-payload", nil, true
+		return stdgen.Payload(t, label+"pl", 200000), "hash-payload", nil, true
 	}
 	c := stdgen.LoadCorpus(ev.RepoRoot())
 	files := c.Small(pkg, maxFile())
